@@ -1,7 +1,7 @@
 (* Properties/C08.v — Applying a diff to the right document reconstructs the left one. *)
 From Coq Require Import List String Bool ZArith Arith.
 From YT Require Import Base.Str Base.KV Base.Sort Model.Doc Model.Dom Model.Builder Model.Diff Model.Apply
-  Model.Path Proofs.BuilderProofs Proofs.PathProofs Proofs.ApplyProofs Proofs.FrameProofs Proofs.ApplyLookupProofs Proofs.DiffNilProofs Proofs.ReconstructProofs Proofs.ReconstructKeyedProofs.
+  Model.Path Proofs.BuilderProofs Proofs.PathProofs Proofs.ApplyProofs Proofs.FrameProofs Proofs.ApplyLookupProofs Proofs.DiffNilProofs Proofs.ReconstructProofs Proofs.ReconstructKeyedProofs Proofs.ReconstructListsProofs.
 Import ListNotations.
 Local Open Scope list_scope.
 
@@ -94,11 +94,32 @@ Theorem C08_diff_keyed_class : forall l r path,
 Proof. exact diff_keyed_class. Qed.
 Print Assumptions C08_diff_keyed_class.
 
+(* Reconstruction on the whole stated domain: L and R agree wherever both define a position (same
+   kind there and equal scalars) and differ by any added keys, any removed keys and ARBITRARILY
+   DIFFERENT LISTS.  After Apply(R, Diff(L,R)) every flattened path of L resolves to its leaf.
+   The Delete of a differing list is the one modification that is not harmless for the leaves below
+   it; its path is a proper prefix of theirs, hence strictly smaller, hence the (stable) sort puts it
+   before the Adds that rebuild the list (render_prefix_lt, sorted_split). *)
+Theorem C08_reconstruct_general : forall kl kr p v,
+  wf (Con kl) = true -> keys_safe (Con kl) = true -> wf (Con kr) = true -> keys_safe (Con kr) = true ->
+  compat_g (Con kl) (Con kr) ->
+  In (p, v) (flatten (Con kl)) ->
+  lookup p (apply (Con kr) (diff (Con kl) (Con kr))) = Some (Leaf v).
+Proof. exact reconstruct_general. Qed.
+Print Assumptions C08_reconstruct_general.
+
+(* a proper prefix position renders to a strictly smaller path: why Delete-then-Add order holds *)
+Theorem C08_prefix_sorts_first : forall tau rest,
+  render_steps tau <> ""%string -> rest <> [] ->
+  String.ltb (render_steps tau) (render_steps (tau ++ rest)) = true.
+Proof. exact render_prefix_lt. Qed.
+Print Assumptions C08_prefix_sorts_first.
+
 (* Not proved (decided on every run by the correspondence: the whole document
    Apply(R, Diff(L,R)) is compared with this model, and Flatten(Apply(R,Diff(L,R))) == Flatten(L)
-   is a Go-side oracle on the stated domain): the same with lists that DIFFER at a common position
-   (the Delete of the list must precede the Adds that rebuild it: an argument about the sort order),
-   and the converse half — no leaf of R outside L survives (exactness of the flattened view). *)
+   is a Go-side oracle on the stated domain): the converse half — no leaf of R outside L survives
+   and no padding null remains, i.e. Flatten(Apply(R, Diff(L,R))) has no OTHER entries; this is where
+   "every list item contains a scalar" is needed. *)
 
 (* non-vacuity: the pair that was reconstructed wrongly on the pinned tree, and a list of lists *)
 Example C08_ex_keyed :
@@ -108,6 +129,14 @@ Example C08_ex_keyed :
                 ("l"%string, Lst [Leaf (SInt 1)]); ("z"%string, Con [("q"%string, Leaf SNull)])] in
   wf l = true /\ wf r = true /\ compat_k l r /\ flatten (apply r (diff l r)) = flatten l.
 Proof. split; [reflexivity|]. split; [reflexivity|]. split; [cbn; tauto|vm_compute; reflexivity]. Qed.
+
+Example C08_ex_general :
+  let l := Con [("a"%string, Lst [Con [("x"%string, Leaf (SInt 1)); ("y"%string, Leaf (SInt 2))]]);
+                ("m"%string, Lst [Lst [Leaf (SInt 1); Leaf (SInt 2)]; Lst [Leaf (SInt 3)]])] in
+  let r := Con [("a"%string, Lst [Con [("z"%string, Leaf (SInt 1))]]); ("gone"%string, Leaf (SInt 0));
+                ("m"%string, Lst [Leaf (SInt 5)])] in
+  wf l = true /\ wf r = true /\ compat_g l r.
+Proof. split; [reflexivity|]. split; [reflexivity|cbn; tauto]. Qed.
 
 Example C08_ex :
   let l := Con [("a"%string, Lst [Con [("x"%string, Leaf (SInt 1)); ("y"%string, Leaf (SInt 2))]]);
